@@ -33,6 +33,8 @@ CHECKS = {
          "Each run draws an unsupported-consistency list (any of the 2^11 subsets, sometimes none) and an override level, prepares SELECT and non-SELECT statements through the proxy and sends generated requests (all option flags, header flags, versions, compression), some of them retried; every attempt a backend receives is decoded with the reference codec and must equal the client's request with only the consistency replaced when (non-SELECT and level in list), and be byte-identical otherwise.", "§7 C12"),
  "C09": ("deterministic simulation: per-connection USE histories x qualifier x table spelling x statement kind as QUERY and PREPARE+EXECUTE; did-it-reach-a-backend oracle against an independent CQL name-resolution model",
          "Connections with a history of USE statements (none, system in several spellings, user and quoted keyspaces) send tokenised statements sweeping keyspace qualifiers, table spellings (system tables, case/quote variants, look-alikes), selector lists and statement kinds, as QUERY and as PREPARE (+EXECUTE, with the v5 keyspace field); an independent resolution model (CQL identifier equality, qualifier before current keyspace) decides whether the proxy must answer itself, which must coincide with the token never/always reaching a fake backend; backends never see a client-originated read of system.local/peers and no client ever sees a backend's sentinel rows.", "§7 C09"),
+ "C10": ("deterministic simulation with several real proxy instances in one world sharing a generated peer list; decoded-rows oracle against a model computed from the configuration, and cross-proxy agreement",
+         "Up to four real proxies are booted in one simulated world from one generated peer list (0-16 IPv4/IPv6 entries, with/without self, data centers and tokens, DSE or OSS backend); system.local and system.peers are read through the wire with * and generated selector lists (subsets, order, aliases, count(*), count(col), now()), decoded with the reference data codecs under the advertised types and compared with the configured/backend-derived facts; what each proxy says about itself must equal what every other proxy says about it, host ids are version-3 UUIDs, tokens are distinct and follow address order from the minimum token.", "§7 C10"),
 }
 
 NOT_APPLICABLE = {
